@@ -107,7 +107,8 @@ QJsonObject generate()
 {
     QJsonObject c;
     static const char *subjects[] = { "logger", "bare", "nested" };
-    c["subject"] = subjects[pick(0, 2)];
+    c["subject"] = chance(15) ? "install" : subjects[pick(0, 2)];
+    c["rounds"] = 50 + sized(0, 350); // subject "install": fresh Logger installed under traffic, this many times
     const int producers = chance(15) ? pick(17, 32) : pick(2, 16);
     c["producers"] = producers;
     c["perProducer"] = 1 + sized(0, chance(10) ? 199 : 40);
@@ -127,9 +128,68 @@ QJsonObject generate()
 
 struct Span { long long b, e; int producer; };
 
+// ---- subject "install": a Logger is installed as message handler while other threads are logging -------------------------
+// Every message must reach exactly one of: the handler that was installed before (a counting foreign handler) or the new logger's
+// sink. The producers are parked while the logger is restored and destroyed (logging into a dying object is the caller's error).
+std::atomic<long> g_foreignDelivered { 0 };
+void countingForeignHandler(QtMsgType, const QMessageLogContext &, const QString &) { g_foreignDelivered++; }
+
+std::string runInstallRace(const QJsonObject &c)
+{
+    // the window of a broken install is a few instructions wide: a replay repeats the shape often enough to meet it again
+    const int P = qMin(6, qMax(2, c["producers"].toInt())), rounds = getenv("VERIF_REPLAY") ? qMax(5000, c["rounds"].toInt()) : c["rounds"].toInt();
+    g_foreignDelivered = 0;
+    std::atomic<long> produced { 0 }, sinkDelivered { 0 };
+    std::atomic<bool> stop { false }, park { false };
+    std::atomic<int> parked { 0 };
+    QtMessageHandler before = qInstallMessageHandler(countingForeignHandler);
+    std::vector<std::thread> threads;
+    for (int p = 0; p < P; p++)
+        threads.emplace_back([&] {
+            while (!stop) {
+                if (park) {
+                    parked++;
+                    while (park && !stop) std::this_thread::yield();
+                    parked--;
+                    continue;
+                }
+                qInfo("x");
+                produced++;
+            }
+        });
+    auto sink = FunctionHandlerPtr::create([&](LogMessage &) { sinkDelivered++; return true; });
+    for (int r = 0; r < rounds; r++) {
+        Logger *lg = new Logger();
+        *lg << sink;
+        lg->installMessageHandler();
+        spinFor(r % 7 == 0 ? 30 : 2);
+        park = true;
+        while (parked.load() < P) std::this_thread::yield();
+        Logger::restorePreviousMessageHandler();
+        delete lg;
+        park = false;
+        while (parked.load() > 0) std::this_thread::yield();
+    }
+    stop = true;
+    for (auto &t : threads) t.join();
+    qInstallMessageHandler(before);
+    count("install_rounds", rounds);
+    count("messages_during_install_rounds", produced.load());
+    cls("subject_install");
+    cls("calls_overlapped", true);
+    cls("park_during_overlap", false);
+    noteCase(c, sinkDelivered.load() > 0 && g_foreignDelivered.load() > 0);
+    if (produced.load() != sinkDelivered.load() + g_foreignDelivered.load())
+        return "installing a Logger under traffic: " + std::to_string(produced.load()) + " messages were logged, " + std::to_string(g_foreignDelivered.load())
+                + " reached the previously installed handler and " + std::to_string(sinkDelivered.load()) + " the logger's sink: "
+                + std::to_string(produced.load() - sinkDelivered.load() - g_foreignDelivered.load()) + " reached neither (or both)";
+    return "";
+}
+
 std::string run(const QJsonObject &c)
 {
     const QString subject = c["subject"].toString();
+    if (subject == "install") return runInstallRace(c);
     const int P = c["producers"].toInt(), N = c["perProducer"].toInt();
     const int preDelay = c["preDelay"].toInt(), spinUs = c["spinUs"].toInt();
     const int firstUs = c["firstUs"].toInt(), midUs = c["midUs"].toInt(), sinkUs = c["sinkUs"].toInt(), slowEvery = qMax(1, c["slowEvery"].toInt());
